@@ -31,7 +31,6 @@ import (
 	"net"
 	"net/http"
 	"os"
-	goruntime "runtime"
 	"strings"
 	"sync"
 	"sync/atomic"
@@ -82,18 +81,10 @@ func vfC17SrvState(hs *HTTPServer) string {
 }
 
 // vfC17SrvCapNotInForce: see the file comment. "" = no proof.
-func vfC17SrvCapNotInForce(capNow int) string {
-	var buf []byte
-	for size := 1 << 20; ; size *= 8 {
-		buf = make([]byte, size)
-		if n := goruntime.Stack(buf, true); n < size || size >= 1<<28 {
-			buf = buf[:n]
-			break
-		}
-	}
+func vfC17SrvCapNotInForce(gs []vfC17Gor, capNow int) string {
 	fsms, acceptors, serving := 0, 0, 0
-	for _, g := range strings.Split(string(buf), "\n\n") {
-		lines := strings.Split(g, "\n")
+	for _, gor := range gs {
+		lines := strings.Split(gor.raw, "\n")
 		head := lines[0]
 		var isFsm, isAccept, inSem, isServe bool
 		for _, l := range lines[1:] {
@@ -472,7 +463,20 @@ func TestVerifC17HTTPServerObject(t *testing.T) {
 			defer r.mu.Unlock()
 			for !pred() && len(r.viols) == 0 {
 				if proveCap > 0 && poll.due() {
-					if proof := vfC17SrvCapNotInForce(proveCap); proof != "" {
+					proof := vfC17SrvCapNotInForce(vfC17Goroutines(), proveCap) // candidate: one snapshot
+					if proof != "" {
+						capNow := proveCap
+						r.mu.Unlock() // the confirmation takes seconds and must see the system as it runs by itself
+						var note string
+						proof, note = vfC17Stable([]string{"net/http."}, func(gs []vfC17Gor) string { return vfC17SrvCapNotInForce(gs, capNow) })
+						r.mu.Lock()
+						if proof != "" {
+							proof += " [" + note + "]"
+						} else {
+							r.logf("candidate proof not confirmed: %s", note)
+						}
+					}
+					if proof != "" && !pred() {
 						r.logf("PROOF: %s", proof)
 						r.viols = append(r.viols, [2]string{"configured-maxConnections-not-in-force: acceptor waits for a permit although fewer connections than the cap are open and no change is in progress", fmt.Sprintf("%d clients answered and open, more are waiting to be served; %s", r.k, proof)})
 						return true
